@@ -31,6 +31,8 @@ func initEncAndDecModes() {
 
 	decMode, err = cbor.DecOptions{
 		MaxArrayElements: 10485760, // Set to a reasonably high value, 10MiB
+		// The encoder puts no limit on map sizes either: anything that was stored must stay readable
+		MaxMapPairs: 10485760,
 	}.DecModeWithTags(ts)
 	if err != nil {
 		panic(err)
